@@ -40,7 +40,12 @@ def parseOpt (s : String) : Option (Option Opt × Bool) :=
 
 def parseQ (s : String) : Option Query :=
   match s.splitOn ":" with
-  | ["Q", id, op, fl, qt, ql, opt] => do
+  | ["Q", idm, op, fl, qt, ql, opt] => do
+    let (id, mask) ← (match idm.splitOn "~" with
+      | [i] => some (i, "0")
+      | [i, m] => some (i, m)
+      | _ => none)
+    let mask ← mask.toNat?
     let id ← id.toNat?
     let op ← op.toNat?
     let qt ← qt.toNat?
@@ -48,7 +53,7 @@ def parseQ (s : String) : Option Query :=
     let (o, same) ← parseOpt opt
     if same then none else
     some { id, opcode := op, rd := fl.contains 'r', ad := fl.contains 'a', cd := fl.contains 'c',
-           question := { name := id, qtype := qt, qlen := ql }, opt := o }
+           question := { name := id + 65536 * mask, qtype := qt, qlen := ql }, opt := o }
   | _ => none
 
 def parseKind (s : String) : Option DKind :=
@@ -230,10 +235,13 @@ def step (st : State) (w : List String) : State × String :=
            | none => (st, head ++ " fallback")
            | some r => (st, head ++ " " ++ showReply q (some r)))
     | _, _, _, _ => (st, "bad-op")
-  | ["edns", "cachewire", d, q, r] =>
+  | "edns" :: "cachewire" :: d :: q :: r :: rest =>
     match parseBool d, parseQ q, parseR r with
     | some d, some q, some u =>
-      (match upstream u false q with
+      let admitQ : Query := match rest with
+        | [m] => { q with question := { q.question with name := q.question.name % 65536 + 65536 * (m.toNat?.getD 0) } }
+        | _ => q
+      (match upstream u false admitQ with
        | none => (st, "bad-op")
        | some m =>
          match newWEntry m with
@@ -246,10 +254,14 @@ def step (st : State) (w : List String) : State × String :=
               let ede := match info.ede with | some (.raw _ dd) => bytesHex dd | _ => "-"
               (st, head ++ s!" info rc={info.rcode} ad={boolStr info.ad} dnssec={boolStr info.hasDnssec} ede={ede} body " ++ showReply q (some b))))
     | _, _, _ => (st, "bad-op")
-  | ["edns", "tomsg", q, r] =>
+  | "edns" :: "tomsg" :: q :: r :: rest =>
     match parseQ q, parseR r with
     | some q, some u =>
-      match upstream u false q with
+      -- the entry was admitted from the answer to the same name in the spelling `rest` gives
+      let admitQ : Query := match rest with
+        | [m] => { q with question := { q.question with name := q.question.name % 65536 + 65536 * (m.toNat?.getD 0) } }
+        | _ => q
+      match upstream u false admitQ with
       | some m =>
         (match newCacheEntry m with
          | some e => (st, showReply q (some (toMsg e q)))
